@@ -49,6 +49,7 @@ func (f verifFileInfo) Sys() interface{}   { return nil }
 // ---- the container runtime's truth
 type vContainer struct {
 	outcome int    // 0 found, 1 not found, 2 other error (runtime outage)
+	errKind int    // containerd, outcome 2: 0 Unavailable, 1 a plain error (arrives with code Unknown), 2 DeadlineExceeded, 3 Internal
 	noState bool   // docker: State == nil
 	status  string // docker: State.Status
 	sandbox int32  // containerd: sandbox state (0 ready, 1 not ready)
@@ -62,6 +63,7 @@ var vContainers map[string]*vContainer
 
 func vAnyContainer() *vContainer {
 	c := &vContainer{outcome: nondetChoice(3)}
+	c.errKind = nondetInt(0, 3) // symbolic: only looked at when the containerd inspect fails
 	c.noState = nondetBool()
 	c.status = nondetPick("running", "exited", "dead", "created", "paused", "restarting", "")
 	c.sandbox = int32(nondetInt(0, 1))
@@ -123,6 +125,14 @@ func (vRuntime) PodSandboxStatus(ctx context.Context, in *criapi.PodSandboxStatu
 		return nil, status.Error(codes.NotFound, "sandbox not found")
 	}
 	if c.outcome == 2 {
+		switch c.errKind {
+		case 1:
+			return nil, status.Error(codes.Unknown, "runtime handler failed") // what a plain error of the runtime's handler becomes on the wire
+		case 2:
+			return nil, status.Error(codes.DeadlineExceeded, "deadline exceeded")
+		case 3:
+			return nil, status.Error(codes.Internal, "internal error")
+		}
 		return nil, status.Error(codes.Unavailable, "runtime unavailable")
 	}
 	return &criapi.PodSandboxStatusResponse{Status: &criapi.PodSandboxStatus{Id: in.PodSandboxId, State: criapi.PodSandboxState(c.sandbox),
@@ -191,7 +201,7 @@ func (c *vContainer) deadContainerd() bool {
 	return verifOr(c.outcome == 1, verifAnd(c.outcome == 0, exited))
 }
 
-// BOUND: one container id with an arbitrary runtime answer: inspect outcome {found, not found, other error}; docker: State present or absent, status over {running, exited, dead, created, paused, restarting, ""}; containerd: sandbox state {ready, not ready}, pod {exists, gone, lookup error}, container states waiting/running; both runtimes
+// BOUND: one container id with an arbitrary runtime answer: inspect outcome {found, not found, other error (containerd: gRPC codes Unavailable, Unknown (a plain error), DeadlineExceeded, Internal)}; docker: State present or absent, status over {running, exited, dead, created, paused, restarting, ""}; containerd: sandbox state {ready, not ready}, pod {exists, gone, lookup error}, container states waiting/running; both runtimes
 func VerifC17_q_shouldCleanupIffDead() {
 	containerd := nondetBool()
 	c := vAnyContainer()
